@@ -1059,15 +1059,16 @@ class ChannelFactory:
             # state transition to "closed" state
             if remoteerror:
                 channel._remoteerrors.append(remoteerror)
-            # the state changes first: a receiver that sees the ENDMARKER
-            # must find the channel closed
+            # the callback gets its endmarker before waitclose() can return,
+            # and the state changes before the ENDMARKER is queued: a
+            # receiver that sees the ENDMARKER must find the channel closed
+            queue = channel._items
+            self._no_longer_opened(id)
             if not sendonly:  # otherwise #--> "sendonly"
                 channel._closed = True  # --> "closed"
             channel._receiveclosed.set()
-            queue = channel._items
             if queue is not None:
                 queue.put(ENDMARKER)
-            self._no_longer_opened(id)
 
     def _local_receive(self, id: int, data) -> None:
         # executes in receiver thread
